@@ -441,6 +441,65 @@ func genC13(ctx *hx.Ctx, emit0 func(hx.Case)) {
 		}
 	}
 
+	// ---- block I: urlencoded bodies (decoded to objects, no body encoder: the class NoBodyEncoder)
+	formSchemas := []c13jm{
+		c13Obj(c13jm{"a": c13Str(), "d": c13Int("default", 7)}),
+		c13Obj(c13jm{"a": c13Str(), "b": c13jm{"type": "boolean", "default": true}, "n": c13Int()}, "required", []any{"a"}),
+		c13Obj(c13jm{"a": c13Str("default", "w"), "d": c13Int("default", 7)}, "additionalProperties", false),
+		c13Obj(c13jm{"a": c13Str(), "n": c13Int()}, "required", []any{"n"}),
+	}
+	for _, fs := range formSchemas {
+		for _, text := range []string{"a=x", "a=x&d=1", "a=x&b=false&n=3", "d=5&a=yy", "n=4", "a=x&d=1&b=true&n=2", "a=", "a=x&n=2"} {
+			// only fields of the schema's own properties (the decoder ignores the others: the text would then stand for
+			// more than the decoded value)
+			inside := true
+			for _, kv := range strings.Split(text, "&") {
+				if _, ok := fs["properties"].(c13jm)[strings.SplitN(kv, "=", 2)[0]]; !ok {
+					inside = false
+				}
+			}
+			if !inside {
+				continue
+			}
+			for hi, h := range []string{"application/x-www-form-urlencoded", "application/x-www-form-urlencoded; charset=utf-8"} {
+				for o := 0; o < 3; o++ {
+					key := "application/x-www-form-urlencoded"
+					if hi == 1 && o == 2 {
+						key = "application/*"
+					}
+					emit0(hx.Case{"opts": c13Opts(o == 1, o == 2), "sec": c13NoSec, "stream": c13jm{"getBody": []string{"ok", "nil", "fails"}[o], "cl": "len"}, "body": text, "ctype": h,
+						"bodySpec": c13jm{"present": true, "required": true, "content": []any{c13jm{"key": key, "schema": fs}}}, "params": []any{}, "store": []any{}})
+				}
+			}
+		}
+	}
+
+	// ---- block J: how the body arrives — ContentLength (length / -1 / 0 with a body present), reader kind, GetBody
+	for _, cl := range []string{"len", "unknown", "zero"} {
+		for _, kind := range []string{"reader", "pipe", "nil"} {
+			for _, gb := range []string{"nil", "ok", "fails"} {
+				for _, body := range []any{nil, "", `{"a":1}`, ` {"a": 1, "d": 2} `, `{"a":"bad"}`} {
+					if kind == "nil" && body != nil {
+						continue
+					}
+					if kind == "pipe" && body == nil {
+						continue
+					}
+					for v := 0; v < 8; v++ {
+						var reqs any
+						if v&1 != 0 {
+							reqs = []any{[]any{"a"}}
+						}
+						emit0(hx.Case{"opts": c13Opts(v&4 != 0, false),
+							"sec":    c13jm{"hasFunc": true, "declared": []any{"a"}, "reqs": reqs, "auth": c13jm{"a": c13jm{"reads": v&2 != 0, "ok": true}}},
+							"stream": c13jm{"getBody": gb, "cl": cl, "kind": kind}, "body": body, "ctype": "application/json",
+							"bodySpec": c13jm{"present": true, "required": v&2 == 0, "schema": s0}, "params": []any{}, "store": []any{}})
+					}
+				}
+			}
+		}
+	}
+
 	// ---- seeded random stream
 	r := ctx.Rng
 	count := 6000
@@ -720,7 +779,7 @@ func genC13(ctx *hx.Ctx, emit0 func(hx.Case)) {
 		}
 		emit(hx.Case{"opts": o,
 			"sec":    c13jm{"hasFunc": !r.Chance(3), "declared": []any{"a", "b"}, "reqs": reqs, "auth": c13jm{"a": c13jm{"reads": vec&1 != 0, "ok": vec&2 != 0 || r.Chance(50)}, "b": c13jm{"reads": vec&4 != 0, "ok": vec&8 != 0 || r.Chance(50)}}},
-			"stream": c13jm{"getBody": hx.Pick(r, []string{"nil", "ok", "ok", "fails"}), "cl": hx.Pick(r, []string{"len", "len", "unknown"})},
+			"stream": c13jm{"getBody": hx.Pick(r, []string{"nil", "ok", "ok", "fails"}), "cl": hx.Pick(r, []string{"len", "len", "unknown", "zero"}), "kind": hx.Pick(r, []string{"reader", "reader", "pipe", "nil"})},
 			"body":   body, "ctype": ct,
 			"bodySpec": bodySpec, "pathParams": pathParams,
 			"params": params, "store": store, "reuseInput": r.Chance(12)})
